@@ -294,7 +294,9 @@ def case_compositions(cfg):
         s = build_stream(cfg)
         parts, tparts = [], []
         for k in comp:
-            parts.append(np.array(s.get_samples(k)))
+            # the caller keeps the returned chunks and concatenates them at the end: no defensive copy here, so a
+            # buffer that is reused between requests shows up as a corrupted earlier chunk
+            parts.append(s.get_samples(k))
             tparts.append(np.array(s.ts))
         cat = np.concatenate(parts)
         tcat = np.concatenate(tparts)
